@@ -439,3 +439,119 @@ def units(tier, which):
                 if which == 'C07':
                     U.append(('h_measure_values', lab, p))
     return U
+
+
+# ---------------------------------------------------------------------------------------------------------------------
+#  generate_mpo with several terms: values for symbolic amplitudes
+# ---------------------------------------------------------------------------------------------------------------------
+
+class AmplitudeProxy(BackendProxy):
+    """ as BackendProxy; freshly allocated arrays can hold symbolic numbers (amplitudes are written into them in place) """
+    def zeros(self, D, dtype='float64', **kw):
+        return np.zeros(D, dtype=object)
+
+    def to_tensor(self, val, Ds=None, dtype='float64', **kw):
+        if has_sym(val):
+            T = np.empty(len(val), dtype=object)
+            for i, x in enumerate(val):
+                T[i] = x
+            return T if Ds is None else T.reshape(Ds)
+        return self._b.to_tensor(val, Ds=Ds, dtype=dtype, **kw)
+
+
+def stub_exact_factorisation(V):
+    """
+    contract of svd_with_truncation as generate_mpo uses it (tol 1e-13: lossless): a == U S V with the new leg last in U.  The MPO's
+    matrix is multilinear in (U, S V), hence the same for EVERY exact factorisation; the stub returns the trivial one (U = a,
+    S = V = identity on the split leg), which keeps LAPACK out of the symbolic run.
+    """
+    def svd_with_truncation(interp, real_fn, args, kwargs):
+        import yastn
+        a = args[0]
+        axes = kwargs.get('axes')
+        V.check('callee-pre:svd_with_truncation:split-off-the-last-leg-with-sU=+1', tuple(axes[0]) == (0, 1, 2) and axes[1] == 3 and kwargs.get('sU', 1) == 1 and a.ndim == 4)
+        lg = a.get_legs(axes=3)
+        V.check('callee-pre:svd_with_truncation:split-leg-has-signature-sU', lg.s == 1)
+        S = yastn.eye(config=a.config, legs=[lg.conj(), lg], isdiag=True)
+        Vh = yastn.eye(config=a.config, legs=[lg.conj(), lg], isdiag=False)
+        return a, S, Vh
+    V.stub('yastn.tensor.linalg:svd_with_truncation', svd_with_truncation)
+
+
+def jw_fmap(ops, N, placed, fm):
+    d = sum(ops.space().D)
+    P = parity_matrix(ops)
+    Id = np.eye(d)
+    res = np.eye(d ** N)
+    f = ops.config.fermionic
+    nsym = ops.config.sym.NSYM
+    fss = (True,) * nsym if f is True else ((False,) * nsym if not f else tuple(f))
+    for o, site in placed:
+        m = local_matrix(ops, o)
+        odd = sum(x for x, ff in zip(o.n, fss) if ff) % 2 == 1
+        mats = [(P if (odd and fm[r] < fm[site]) else Id) if r != site else m for r in range(N)]
+        full = mats[0]
+        for x in mats[1:]:
+            full = np.kron(full, x)
+        res = res @ full
+    return res
+
+
+def term_sets(ops, N, name):
+    c, cp, n, I = ops.c(), ops.cp(), ops.n(), ops.I()
+    S = range(N)
+    if name == 'hopping-all-pairs':
+        return [((i, j), (cp, c)) for i in S for j in S if i != j]
+    if name == 'c+n.c':
+        return [((i,), (c,)) for i in S] + [((i, j), (n, c)) for i in S for j in S if i != j]
+    if name == 'cp.n.c':
+        return [((i, k, j), (cp, n, c)) for i in S for j in S for k in S if len({i, j, k}) == 3]
+    if name == 'descending+same-site':
+        return [((j, i), (cp, c)) for i in S for j in S if j > i] + [((i, i), (cp, c)) for i in S] + [((i, j, i), (cp, n, c)) for i in S for j in S if i != j]
+    if name == 'with-vanishing-terms':
+        # n.c = 0 and c.c = 0 on a site: such terms contribute nothing to the sum
+        return [((0, 1), (cp, c)), ((0, 1, 1), (cp, n, c)), ((1, 2), (cp, c)), ((2, 2, 1), (n, c, cp)), ((0, 0, 2), (c, c, cp)), ((2, 0), (cp, c))]
+    if name == 'three-on-two':
+        return [((i, j, j), (cp, c, n)) for i in S for j in S if i != j] + [((i, i, j), (n, cp, c)) for i in S for j in S if i != j]
+    raise ValueError(name)
+
+
+def h_generate_mpo_values(V, family, N, termset, f_map):
+    import yastn.tn.mps as mps
+    ops = ops_of(family)
+    sp = ops.space()
+    if V.symbolic:
+        stub_exact_factorisation(V)
+        prox = AmplitudeProxy()
+        wrap = lambda x: x._replace(config=x.config._replace(backend=prox))
+    else:
+        wrap = lambda x: x
+    terms = term_sets(ops, N, termset)
+    amps = [V.real(f"amp{i}") for i in range(len(terms))]
+    hterms = [mps.Hterm(a, list(pos), [wrap(o) for o in oo]) for a, (pos, oo) in zip(amps, terms)]
+    out = V.outcome(mps.generate_mpo, wrap(ops.I()), hterms, N=N, f_map=f_map)
+    V.check('accepted', out.exc is None)
+    if out.exc is not None:
+        return
+    O = out.value
+    fm = list(range(N)) if f_map is None else list(f_map)
+    want = sum(a * jw_fmap(ops, N, list(zip(oo, pos)), fm) for a, (pos, oo) in zip(amps, terms))
+    got = dense_mpo(V, O, sp)
+    V.check('oracle-depends-on-the-amplitudes', (not V.symbolic) or has_sym(want))
+    # generate_mpo divides a floating-point norm out and multiplies it back in: coefficients agree to round-off, not exactly
+    V.check_equal('MPO-matrix=sum-of-amplitude*Jordan-Wigner-products', got.ravel().tolist(), np.asarray(want).ravel().tolist(), coeff_tol=1e-12)
+
+
+def genmpo_units(tier):
+    U = []
+    th = tier == 'thorough'
+    for family in ('fermion-Z2', 'fermion-U1'):
+        for N in (3,) + ((4,) if th else ()):
+            perms = list(itertools.permutations(range(N)))
+            fmaps = [None] + (perms if (N == 3 or th and False) else perms[::5])
+            for ts in ('hopping-all-pairs', 'c+n.c', 'cp.n.c', 'descending+same-site', 'three-on-two', 'with-vanishing-terms'):
+                for fmap in fmaps:
+                    if not th and family == 'fermion-U1' and fmap is not None and fmap not in ((0, 2, 1), (1, 2, 0), (2, 1, 0)):
+                        continue
+                    U.append(('h_generate_mpo_values', f"{family},N={N},{ts},f_map={fmap}", dict(family=family, N=N, termset=ts, f_map=fmap)))
+    return U
